@@ -91,7 +91,7 @@ def prepare(prop_module, need_server=False):
         res["lean_log"] = out[-6000:]
         if rc != 0 and prop_module:
             # the model/driver may still build even if a property module does not
-            rc2, out2 = sh(["lake", "build", "PLS", "Driver", "plsdriver"], cwd=LEAN, timeout=3000)
+            rc2, out2 = sh(["lake", "build", "plsdriver"], cwd=LEAN, timeout=3000)
             res["driver_build"] = (rc2 == 0)
         else:
             res["driver_build"] = (rc == 0)
